@@ -384,9 +384,17 @@ class ReconnectLogic(zeroconf.RecordUpdateListener):
             _LOGGER.debug("Starting zeroconf listener for %s", self.name)
             self._ptr_alias = f"{self.name}._esphomelib._tcp.local."
             self._a_name = f"{self.name}.local."
-            self._zeroconf_manager.get_async_zeroconf().zeroconf.async_add_listener(
-                self, None
-            )
+            try:
+                aiozc = self._zeroconf_manager.get_async_zeroconf()
+            except Exception as err:  # pylint: disable=broad-except
+                # Zeroconf cannot be started (ie. no usable network
+                # interface yet). We cannot listen for records, the
+                # reconnect still happens when the timer fires.
+                _LOGGER.debug(
+                    "%s: Could not start zeroconf listener: %s", self.name, err
+                )
+                return
+            aiozc.zeroconf.async_add_listener(self, None)
             self._zc_listening = True
 
     def _stop_zc_listen(self) -> None:
